@@ -10,6 +10,10 @@ package main
 import (
 	"bytes"
 	"fmt"
+	"go/ast"
+	"go/types"
+	"path/filepath"
+	"sort"
 	"strings"
 
 	libaudit "github.com/elastic/go-libaudit/v2"
@@ -17,8 +21,68 @@ import (
 
 func init() {
 	generators = append(generators, func(repo string, root *pkg) {
+		clientRoot = root
 		runGen("genClientFacts", []string{"ClientFacts"}, func() { genClientFactsImpl() })
 	})
+}
+
+var clientRoot *pkg
+
+// clientClocks lists, for audit.go and netlink.go, every call that reads a clock or arms a timer or a deadline: a
+// package-level function of package time other than Sleep (Now, Since, Until, After, AfterFunc, NewTimer, NewTicker,
+// Tick), anything of package context, and a method named SetDeadline / SetReadDeadline / SetWriteDeadline:
+// "function: callee". The client model waits for a reply through any number of unsolicited records and transient
+// failures (its only notion of time is the bounded run of retries per read); a wait that also ends when a clock
+// says so reports a failure for a request the kernel acknowledged, after an amount of waiting no check can afford to
+// reproduce for every conceivable limit.
+func clientClocks(root *pkg) []string {
+	var out []string
+	for _, f := range root.files {
+		base := filepath.Base(root.fset.Position(f.Pos()).Filename)
+		if base != "audit.go" && base != "netlink.go" {
+			continue
+		}
+		for _, d := range f.Decls {
+			fd, ok := d.(*ast.FuncDecl)
+			if !ok || fd.Body == nil {
+				continue
+			}
+			ast.Inspect(fd.Body, func(n ast.Node) bool {
+				call, ok := n.(*ast.CallExpr)
+				if !ok {
+					return true
+				}
+				sel, ok := call.Fun.(*ast.SelectorExpr)
+				if !ok {
+					return true
+				}
+				switch sel.Sel.Name {
+				case "SetDeadline", "SetReadDeadline", "SetWriteDeadline":
+					out = append(out, fd.Name.Name+": "+sel.Sel.Name)
+					return true
+				}
+				obj := root.info.Uses[sel.Sel]
+				fn, ok := obj.(*types.Func)
+				if !ok || fn.Pkg() == nil {
+					return true
+				}
+				if sig, ok := fn.Type().(*types.Signature); ok && sig.Recv() != nil {
+					return true
+				}
+				switch fn.Pkg().Path() {
+				case "time":
+					if fn.Name() != "Sleep" {
+						out = append(out, fd.Name.Name+": time."+fn.Name())
+					}
+				case "context":
+					out = append(out, fd.Name.Name+": context."+fn.Name())
+				}
+				return true
+			})
+		}
+	}
+	sort.Strings(out)
+	return out
 }
 
 func genClientFactsImpl() {
@@ -44,6 +108,15 @@ func genClientFactsImpl() {
 		items = append(items, fmt.Sprintf("(%d, some [%s])", l, strings.Join(ws, ", ")))
 	}
 	fmt.Fprintf(&b, "def fromWireByLength : List (Nat × Option (List Nat)) := [%s]\n", strings.Join(items, ",\n  "))
+	b.WriteString("/-- calls in audit.go / netlink.go that read a clock or arm a timer or deadline (\"function: callee\"); see clientClocks in harness/cmd/extract/clientfacts.go -/\n")
+	b.WriteString("def clientClocks : List String := [")
+	for i, c := range clientClocks(clientRoot) {
+		if i > 0 {
+			b.WriteString(", ")
+		}
+		fmt.Fprintf(&b, "%q", c)
+	}
+	b.WriteString("]\n")
 	b.WriteString("end LA.Gen.ClientFacts\n")
 	emit("ClientFacts", &b)
 }
